@@ -20,6 +20,9 @@ CHECKS = {
  "C07": dict(level="fault_enumeration", ref="7/C07",
    text="For each conversation of a seeded corpus (1-3 transactions, DATA and BDAT, SMTP and LMTP, partial end markers in the text, transfers abandoned by RSET/QUIT/EHLO/MAIL/nothing) the connection is cut at EVERY octet offset of the client's stream (FIN), and with RST, half-close and stall-until-ReadTimeout at every 5th/7th/9th offset. Oracle per message: if its last octet (end marker / LAST payload) was not delivered, the backend reader never reports EOF, a backend reading to the end gets a non-EOF error and returns, and no 2xx final reply is written; whenever the reader reports EOF the octets are the whole message; the fault-free base run of every conversation must be healthy.",
    note="Exhaustive over cut offsets of the generated corpus, not over all conversations. The backend reads to the end (Session.Data documents that r must be consumed), so a backend that accepts early is outside the contract and not judged."),
+ "C08": dict(level="fault_enumeration", ref="7/C08",
+   text="(a) C07's corpus with the connection cut at every octet offset; (b) every server-initiated ending (221 after QUIT, fourth protocol error, over-long line, idle timeout, backend panic in NewSession/Mail/Rcpt/Data, Server.Close at a drawn instant) at five conversation positions, each followed by drawn suffixes of 0-4 commands already buffered in the same segment or sent later; (c) STARTTLS whose Logout is parked while Server.Close fires. Oracles over callback begin events keyed by session identity: exactly one Logout per created session, no callback beginning after it, no callback after the server closed its endpoint, no reply attempted after a self-initiated close, Serve returns, and no goroutine of the bubble is left one fake hour later (stack dump as witness).",
+   note="Callback order is the order of a global sequence number taken on entry. Commands fully received before a peer disconnect may run; a final line cut before its CRLF is not judged."),
  "C01": dict(level="exploration", ref="7/C01",
    text="Seeded search plus a systematic sweep of all 5461 bodies over the byte classes {'.',CR,LF,other} up to length 6, each run under a drawn transport segmentation, server short-read plan and backend read-size plan; the octets and terminal error the real dataReader hands the backend are compared with an RFC 5321 reference unstuffer. Sampling, not proof: evidence of byte-exactness over the explored streams x schedules.",
    note="Trusts: the reference unstuffer (cross-checked against a reference stuffer), Go's testing/synctest fake clock, go1.26.8 building go-smtp the same way go1.23.5 does."),
